@@ -13,8 +13,11 @@
      FileData mutexes a section under [mu] takes (FileData.Name(), FileInfo.IsDir(), SetMode,
      ChangeFileName, parent.Lock() in (un)registerWithParent) appear as "touches"
      (acquire; release) BEFORE the section's body;
-   - Go's map iteration order in RemoveAll is one legal order: the keys present when the loop
-     starts, in ascending order; keys inserted later are not visited;
+   - the table follows /repo as of commit 4081b32 (RemoveAll, Chmod, Chtimes: one write-locked
+     section with a deferred unlock; OpenFile with O_CREATE: openOrCreate; Mkdir: no setFileMode).
+     RemoveAll as it was before commit ce143d9 is kept behind [cf_legacy] (the ARa sections): there
+     Go's map iteration order is one legal order — the keys present when the loop starts, in
+     ascending order; keys inserted later are not visited;
    - a pending writer does not block new readers of [mu] (Go's writer preference);
    - the Go memory model appears only through the access annotations [cc_acc] below;
    - a panic is recovered by the caller of the API method (deferred unlocks run, the goroutine
